@@ -174,7 +174,8 @@ class V:  # parsed operand
 
 def cname_local(n): return 'v_' + san(n)
 def cname_glob(n):
-    return (PREFIX if n in M.defined else '') + san(n)
+    sn = san(n)
+    return (PREFIX if (n in M.defined and not (PREFIX and sn.startswith(PREFIX))) else '') + sn
 
 def fconst(tok, ty):
     if tok.startswith('0x'):
